@@ -287,4 +287,24 @@ PROPS = {
         assumptions=COMMON_ASSUME,
         partial=["real OS scheduling is sampled (randomised delays), not enumerated; liveness under fairness is not proved"],
     ),
+    "C16": dict(
+        level="proof",
+        trusted_base=[KERNEL, CORR,
+                      "the pseudorandom generator (ChaCha8, rand's choose / choose_multiple) is NOT modelled: lean/LdpcV/Model/Constructions.lean takes the sequence of "
+                      "random picks as an argument and rejects picks the Rust selection rule could not have produced; theorems quantify over every pick sequence. "
+                      "There is therefore no model output to compare with: the tie is that the executable validators (mnAccepts / pegAccepts: 'this matrix is the "
+                      "outcome of some run of the modelled algorithm', replaying the per-column insertion order visible through iter_col) and the promised properties "
+                      "are evaluated on every matrix the implementation returns",
+                      "observed only: same (configuration, seed) gives the same matrix (re-run in a fresh thread), different seeds differ, Config::search under the rayon "
+                      "global pool returns a seed in range with run(seed)'s matrix / None only if all seeds fail"],
+        rule=("400 (6000 thorough) MacKay-Neal configurations x seeds (rows <= 12/30, cols <= 24/60, wc 1-4, wr tight to roomy, both fill policies, min girth none/4/6/8, "
+              "backtracking on/off) and 300 (4000) PEG configurations (rows <= 10/30, cols <= 20/60, wc 1-5 incl. wc > rows): every Ok matrix must satisfy mnProps / "
+              "pegProps and be accepted by mnAccepts / pegAccepts, and be reproduced by a second run in a fresh thread; 16 seeds on roomy configurations must give "
+              ">= 2 distinct matrices; 60 (600) Config::search calls (ranges of 1-64 seeds): result in range and equal to run(seed), None only if every seed fails; "
+              "non-trivial = an Ok construction; distinct = distinct (configuration, seed)"),
+        assumptions=COMMON_ASSUME,
+        partial=["RNG reproducibility, 'different seeds explore different choices' and the rayon seed search are observed, not proved",
+                 "Err outcomes cannot be replayed without the choice trace",
+                 "validator completeness (every model run is accepted by mnAccepts / pegAccepts) is not proved; it is exercised on every implementation result"],
+    ),
 }
